@@ -240,7 +240,13 @@ class FileWorld(object):
     # -- generation -------------------------------------------------------------------------
     def gen_step(self, rng):
         from dsim.worlds import file_ops
-        return file_ops.gen_step(self, rng)
+        from dsim.worlds.arrays import Skip
+        for _ in range(6):
+            try:
+                return file_ops.gen_step(self, rng)
+            except (IndexError, ValueError, KeyError, Skip):
+                continue        # a generator met a state it has no candidate for (empty choice): draw again
+        return {"op": "ds_write", "path": PATHS[0], "mode": "w", "spec": gen_dataset_spec(rng, self.cfg)}
 
     def exec_step(self, step):
         from dsim.worlds import file_ops
